@@ -155,3 +155,136 @@ Section Charges.
     - rewrite D2 by congruence. lia.
   Qed.
 End Charges.
+
+(** ** the consumer of a stored context does not change over an end-block *)
+Lemma x_off_cons x : x_cons (x_off x) = x_cons x.
+Proof. unfold x_off. destruct (x_brun x); reflexivity. Qed.
+
+Lemma expired_handler_cons c t id id0 x' :
+  get id0 (ctxs (expired_batch_handler c t id)) = Some x' -> exists x, get id0 (ctxs t) = Some x /\ x_cons x' = x_cons x.
+Proof.
+  intros Hg. pose proof (expired_handler_loc_own c t id) as Q. pose proof (expired_handler_loc_other c t id0 id) as O.
+  unfold loc in Q, O. destruct (eq_dec id0 id) as [->|Hne].
+  - unfold QE in Q. destruct (get id (ctxs t)) as [x|] eqn:Ex.
+    + destruct Q as (_ & Q). rewrite Hg in Q. exists x. split; [reflexivity|].
+      destruct (x_state x =? 2); [destruct Q; discriminate|]. destruct (x_state x =? 0); [destruct (belowb x)|]; destruct Q as (Q & _);
+        try discriminate; inversion Q; subst; apply x_off_cons.
+    + injection Q as Q1 _ _. rewrite Hg in Q1. discriminate.
+  - assert (Hne' : id <> id0) by congruence. specialize (O Hne'). injection O as O1 _ _. rewrite Hg in O1. exists x'. split; [symmetry; exact O1|reflexivity].
+Qed.
+
+Lemma new_handler_cons t id id0 x' :
+  get id0 (ctxs (new_batch_handler t id)) = Some x' -> exists x, get id0 (ctxs t) = Some x /\ x_cons x' = x_cons x.
+Proof.
+  intros Hg. destruct (eq_dec id0 id) as [->|Hne].
+  2: { rewrite (new_handler_ctx_other t id id0 Hne) in Hg. exists x'. split; [exact Hg|reflexivity]. }
+  unfold new_batch_handler in Hg. destruct (get id (ctxs t)) as [x|] eqn:Ex; [|rewrite Ex in Hg; discriminate].
+  exists x. split; [reflexivity|].
+  destruct (x_state x =? 0); [|simpl in Hg; rewrite Ex in Hg; congruence].
+  assert (Skip : get id (ctxs (dequeue_new (skip_batch t id x) id)) = Some x' -> x_cons x' = x_cons x).
+  { simpl. rewrite get_set_same. intros E. inversion E; subst. reflexivity. }
+  destruct (filter_provs t x (x_provs x)) as [ps|]; [|exact (Skip Hg)].
+  cbv zeta in Hg. destruct (_ && _); [|exact (Skip Hg)].
+  destruct (debit_all _ _ _) as [l|].
+  - simpl in Hg. rewrite get_set_same in Hg. inversion Hg; subst. reflexivity.
+  - unfold on_paused in Hg. destruct (x_mod x); simpl in Hg; rewrite get_set_same in Hg; inversion Hg; subst; reflexivity.
+Qed.
+
+Lemma new_handler_new_ctx t id rid q' :
+  get rid (reqs (new_batch_handler t id)) = Some q' -> get rid (reqs t) = Some q' \/ rid_ctx rid = id.
+Proof.
+  unfold new_batch_handler. destruct (get id (ctxs t)) as [x|]; [|tauto].
+  destruct (x_state x =? 0); [|tauto].
+  destruct (filter_provs t x (x_provs x)) as [ps|]; [|tauto].
+  cbv zeta. destruct (_ && _); [|tauto].
+  destruct (debit_all _ _ _) as [l|]; [|unfold on_paused; destruct (x_mod x); tauto].
+  set (sl := with_led t (credit_all l REQ (total_fees t x ps))).
+  change (reqs (dequeue_new (initiate sl id x ps) id)) with (fold_left (fun m e => set (fst e) (snd e) m) (mk_requests sl x id (x_batch x + 1) 0 ps) (reqs t)).
+  intros Hg. apply get_fold_set in Hg. destruct Hg as [Hin|Hg]; [right|left; exact Hg].
+  exact (proj1 (mk_requests_shape sl x id _ ps 0 (rid, q') Hin)).
+Qed.
+
+Definition cons_of (s : state) (rid : reqid) : Z :=
+  match get (rid_ctx rid) (ctxs s) with Some x => x_cons x | None => -99 end.
+
+Lemma msum_zero {K V} (f : K * V -> Z) (m : list (K * V)) : (forall e, In e m -> f e = 0) -> msum f m = 0.
+Proof. unfold msum. induction m as [|e m IH]; simpl; intros H; [reflexivity|]. rewrite (H e (or_introl eq_refl)), IH; [reflexivity|]. intros; apply H; right; assumption. Qed.
+
+(** over one end-block an account that is not a module account moves by exactly the refunds of the
+    requests expiring at this height minus the fees of the requests created at this height *)
+Lemma end_block_bal c s dt a d :
+  GInv s -> LInv false s -> (forall rid, has rid (reqs s) = true -> rid_h rid < height s) ->
+  a <> DEP /\ a <> REQ /\ a <> TAX ->
+  bal (led (end_block c s dt)) a d =
+  bal (led s) a d + msum (W (height s) a d (cons_of s)) (reqs s) - msum (V (height s) a d (cons_of s)) (reqs (end_block c s dt)).
+Proof.
+  intros (Hq & Hb & Hd & Hp & He) Hl Hold Ha. set (h := height s).
+  set (CS := fun t : state => forall id x, get id (ctxs t) = Some x -> exists x0, get id (ctxs s) = Some x0 /\ x_cons x = x_cons x0).
+  assert (CSc : forall t id, CS t -> forall x, get id (ctxs t) = Some x -> forall rid, rid_ctx rid = id -> cons_of s rid = x_cons x).
+  { intros t id Hcs x Hg rid Hr. unfold cons_of. rewrite Hr. destruct (Hcs id x Hg) as (x0 & G0 & E0). rewrite G0. congruence. }
+  unfold end_block. cbv zeta. cbn [led reqs with_iidx with_time with_height].
+  set (s1 := fold_left (expired_batch_handler c) _ s).
+  assert (H1 : ((QInv s1 /\ BatchInv s1 /\ DepInv s1 /\ PInv s1 /\ EscInv s1) /\ LInv false s1) /\ height s1 = h /\ CS s1
+               /\ pot h a d (cons_of s) s1 = pot h a d (cons_of s) s
+               /\ (forall rid q', get rid (reqs s1) = Some q' -> get rid (reqs s) = Some q')).
+  { subst s1.
+    apply (fold_handlers (fun t => ((QInv t /\ BatchInv t /\ DepInv t /\ PInv t /\ EscInv t) /\ LInv false t) /\ height t = h /\ CS t
+               /\ pot h a d (cons_of s) t = pot h a d (cons_of s) s
+               /\ (forall rid q', get rid (reqs t) = Some q' -> get rid (reqs s) = Some q'))
+             (expired_batch_handler c) (fun t id => In (height t, id) (expq t))).
+    - intros t id (((Tq & Tb & Td & Tp & Te) & Tl) & Th & Tcs & Tpot & Tsv) Hpre.
+      destruct (QInv_expired_handler c t id Tq Hpre) as (A & B & C).
+      destruct (LInv_expired_handler c t id Tq Tb Hpre Tl) as (L & _).
+      destruct (expired_handler_reqs c t id Tq Tb Tl Hpre) as (Ea & _).
+      split.
+      + split; [split; [|exact L]|].
+        * split; [exact A|]. split; [apply BatchInv_expired_handler; exact Tb|]. split; [apply DepInv_expired_handler; exact Td|].
+          split; [apply PInv_expired_handler; exact Tp|apply EscInv_expired_handler; assumption].
+        * split; [congruence|]. split; [|split].
+          -- intros id0 x' Hg'. destruct (expired_handler_cons c t id id0 x' Hg') as (x & Hg & Ec). destruct (Tcs id0 x Hg) as (x0 & G0 & E0).
+             exists x0. split; [exact G0|congruence].
+          -- rewrite <- Tpot. apply expired_handler_pot; try assumption. rewrite <- Th. exact Hpre. exact (CSc t id Tcs).
+          -- intros rid q' Hg. apply Tsv. apply Ea. exact Hg.
+      + intros id' Hne Hpp. rewrite B. apply C; assumption.
+    - apply due_NoDup. exact (q_exp_nodup _ Hq).
+    - split; [split; [exact (conj Hq (conj Hb (conj Hd (conj Hp He))))|exact Hl]|]. split; [reflexivity|]. split; [|split; [reflexivity|intros; assumption]].
+      intros id x Hg. exists x. split; [exact Hg|reflexivity].
+    - intros id Hin. apply due_in in Hin. exact Hin. }
+  destruct H1 as (((Q1 & B1 & D1 & P1 & E1) & L1) & Hh1 & CS1 & Pot1 & Sv1).
+  (* nothing expiring at this height is left *)
+  assert (Pm : forall id0, get id0 (expmark s1) <> Some (height s1)).
+  { assert (F := LInv_phase1 c (due (height s) (expq s)) s (due_NoDup _ _ (q_exp_nodup _ Hq)) Hq Hb Hl).
+    cbv zeta in F. fold s1 in F. apply F.
+    - intros id Hin. apply due_in in Hin. exact Hin.
+    - intros id0 E. apply due_in. exact (proj1 (l_mark _ _ Hl id0 _ E)). }
+  assert (W0 : msum (W h a d (cons_of s)) (reqs s1) = 0).
+  { apply msum_zero. intros [rid q] Hin. unfold W. cbn [fst snd]. destruct (q_active q) eqn:Ea; [|reflexivity].
+    pose proof (In_get_NoDup rid q (reqs s1) (b_keys _ B1) Hin) as Hg.
+    pose proof (l_exp _ _ L1 rid q Hg Ea) as Hm. destruct (l_mark _ _ L1 _ _ Hm) as (_ & Hle). cbv beta iota in Hle.
+    assert (q_exp q <> h) by (intros E; apply (Pm (rid_ctx rid)); rewrite Hm, E, Hh1; reflexivity).
+    replace (q_exp q =? h) with false by (symmetry; apply Z.eqb_neq; assumption). reflexivity. }
+  assert (V0 : msum (V h a d (cons_of s)) (reqs s1) = 0).
+  { apply msum_zero. intros [rid q] Hin. unfold V. cbn [fst snd].
+    pose proof (In_get_NoDup rid q (reqs s1) (b_keys _ B1) Hin) as Hg. pose proof (Sv1 rid q Hg) as Hg0.
+    assert (Hlt : rid_h rid < h) by (apply Hold; unfold has; rewrite Hg0; reflexivity).
+    replace (rid_h rid =? h) with false by (symmetry; apply Z.eqb_neq; lia). reflexivity. }
+  set (s2 := fold_left new_batch_handler _ s1).
+  assert (H2 : (QInv s2 /\ height s2 = h) /\ CS s2 /\ pot2 h a d (cons_of s) s2 = pot2 h a d (cons_of s) s1).
+  { subst s2.
+    apply (fold_handlers (fun t => (QInv t /\ height t = h) /\ CS t /\ pot2 h a d (cons_of s) t = pot2 h a d (cons_of s) s1) new_batch_handler
+             (fun t id => In (height t, id) (newq t) /\ (forall rid, has rid (reqs t) = true -> rid_ctx rid = id -> rid_h rid < h))).
+    - intros t id ((Tq & Th) & Tcs & Tpot) (Hpre & Hfr). destruct (QInv_new_handler t id Tq Hpre) as (A & B & C).
+      split.
+      + split; [split; [exact A|congruence]|]. split.
+        * intros id0 x' Hg'. destruct (new_handler_cons t id id0 x' Hg') as (x & Hg & Ec). destruct (Tcs id0 x Hg) as (x0 & G0 & E0).
+          exists x0. split; [exact G0|congruence].
+        * rewrite <- Tpot. apply new_handler_pot2; [exact Ha|exact Th|exact (CSc t id Tcs)|exact Hfr].
+      + intros id' Hne (Hpp & Hfr'). split; [rewrite B; apply C; assumption|].
+        intros rid Hhas Hr. unfold has in Hhas. destruct (get rid (reqs (new_batch_handler t id))) as [q'|] eqn:Eg; [|discriminate].
+        destruct (new_handler_new_ctx t id rid q' Eg) as [Hg|Hc]; [|congruence]. apply Hfr'; [unfold has; rewrite Hg; reflexivity|exact Hr].
+    - apply due_NoDup. exact (q_new_nodup _ Q1).
+    - split; [split; [exact Q1|exact Hh1]|]. split; [exact CS1|reflexivity].
+    - intros id Hin. apply due_in in Hin. split; [exact Hin|]. intros rid Hhas _. unfold has in Hhas.
+      destruct (get rid (reqs s1)) as [q'|] eqn:Eg; [|discriminate]. apply Hold. unfold has. rewrite (Sv1 rid q' Eg). reflexivity. }
+  destruct H2 as (_ & _ & Pot2). unfold pot in Pot1. unfold pot2 in Pot2. rewrite W0 in Pot1. rewrite V0 in Pot2. fold h. lia.
+Qed.
